@@ -203,14 +203,57 @@ def check_batch(ctx, facts):
                 if p is not None and p["p"]:
                     incs.append(site)
     push_blocks = [s.bb for s, _ in plan_pushes]
+    # the other way of walking the batch: `for (idx, data) in batch.iter().enumerate()` - the index pushed is the
+    # one the iterator yields, and every yielded item reaches exactly one push before the next one is asked for
+    enum_next = None
+    for il in idx_locals:
+        cur_, hops_ = il, 0
+        while cur_ is not None and hops_ < 8:
+            hops_ += 1
+            sd_ = b.single_def(cur_)
+            if sd_ is None:
+                break
+            if sd_[1] == "call":
+                cn_ = strip_generics(sd_[2].get("callee") or "")
+                if re.search(r"Iterator>?::next$", cn_) and sd_[2]["args"]:
+                    rl_ = borrowed_local(b, sd_[2]["args"][0])
+                    rty = b.local_ty(rl_) if rl_ is not None else ""
+                    src_i, _, _ = origins(b, sd_[2]["args"][0])
+                    if "iter::Enumerate<std::slice::Iter<" in rty and bname in origin_args(src_i) and not origin_calls(src_i):
+                        enum_next = sd_[0]
+                break
+            rv_ = sd_[2]["rv"]
+            q_ = op_place(rv_["op"]) if rv_["k"] in ("use", "cast") else None
+            cur_ = q_["l"] if q_ is not None else None
+    if enum_next is not None:
+        N_ = enum_next.node["dest"]["l"]
+        some_e = None
+        for T in all_tests(b):
+            if T.kind == "discr" and not T.place["p"] and T.place["l"] == N_:
+                some_e = T.variant_edges.get(1)
+        ok_iter = False
+        if some_e is not None:
+            every = b.must_pass([some_e[1]], [enum_next.bb], push_blocks)
+            once = all(not [pb for pb in push_blocks if pb in b.reachable_after(s_.bb, removed_blocks=[enum_next.bb])] for s_, _ in plan_pushes)
+            ok_iter = every and once
+        if ok_iter:
+            ctx.ok("C07.1", "writer::Writer::batch_write", "planning: the batch is walked with iter().enumerate() and every yielded index is pushed into the plan exactly once", b.relfile, plan_pushes[0][0].line)
+            ctx.ok("C07.1", "writer::Writer::batch_write", "planning continues until the iterator over the batch is exhausted", b.relfile, plan_pushes[0][0].line)
+        else:
+            ctx.violate("C07.1", "writer::Writer::batch_write", "plan-incomplete", b.relfile, plan_pushes[0][0].line, "an item yielded by the iteration over the batch can reach the next iteration without having been pushed into the plan (or be pushed twice)")
+        incs = None
     good = bool(incs)
+    iter_form = incs is None
+    incs = incs or []
     for i in incs:
         if not any(b.dominates(pb, i.bb) for pb in push_blocks):
             good = False
     for s, _ in plan_pushes:
         if not b.must_pass([s.bb], push_blocks, [i.bb for i in incs]):
             good = False
-    if good:
+    if iter_form:
+        pass
+    elif good:
         ctx.ok("C07.1", "writer::Writer::batch_write", "planning: each batch index is pushed into the plan exactly once (push and index increment are paired)", b.relfile, plan_pushes[0][0].line)
     else:
         ctx.violate("C07.1", "writer::Writer::batch_write", "plan-incomplete", b.relfile, plan_pushes[0][0].line, "the planning loop can skip or duplicate a batch index")
@@ -221,7 +264,9 @@ def check_batch(ctx, facts):
             eb = strip_refs(expr(b, T.b))
             if eb[0] == "len" and bname in show(eb):
                 cond_ok = True
-    if cond_ok:
+    if iter_form:
+        pass
+    elif cond_ok:
         ctx.ok("C07.1", "writer::Writer::batch_write", "planning continues while index < batch.len()", b.relfile, plan_pushes[0][0].line)
     else:
         ctx.violate("C07.1", "writer::Writer::batch_write", "plan-loop-condition", b.relfile, plan_pushes[0][0].line, "the planning loop is not bounded by index < batch.len()")
